@@ -41,6 +41,11 @@ CONFIG = {
             "client, plaintext} with and without bytes before the TLS hello. Monitors: with mustSecure no usable non-secure "
             "connection and no write beyond the two handshake requests after a failure; a session reports secure only with an "
             "encrypted carrier or TLS; StartTLS asked and supported => TLS or no session; marker never in clear. "
+            "seckinds: complete grid 7 schemes (tcp, tcp+tls, ws, wss, udp, stdio, stdio+tls) x server certificate x "
+            "require-security x insecure flag x client CA (TLS schemes only with certificate), dns 4 cells (thorough: 16 + 40 "
+            "random repeats); monitor = the property: require-security => no session unless client secure, TLS-protected "
+            "(StartTLS or TLS carrier), echo through the server, marker not on the recorded carrier; StartTLS offered on an "
+            "unencrypted carrier => tls+secure or no session; reported secure => marker never on the carrier. "
             "non-trivial = session established; distinct = distinct op line",
     "trusted_base": COMMON_TB + [
         "model SA.Model.Security + SA.Model.Handshake hand-written; tied per op (outcome class, security tech, secure flag, "
